@@ -88,6 +88,11 @@ func registerAddressable(prog *Program, ctr *Contracts) {
 			for j := 0; j < st.NumFields(); j++ {
 				if st.Field(j).Name() == parts[1] {
 					key := typeKey(tn.Type()) + "." + parts[1]
+					for other, ft := range addressableFieldType {
+						if strings.HasPrefix(other, typeKey(tn.Type())+".") && ft == typeKey(st.Field(j).Type()) {
+							panic(oos("two addressable fields of type %s in %s", ft, parts[0]))
+						}
+					}
 					addressable[key] = i
 					addressableFieldType[key] = typeKey(st.Field(j).Type())
 					addressableElem[typeKey(st.Field(j).Type())] = true
@@ -255,7 +260,7 @@ func (ex *Exec) leafFacts(st *State, l Leaf, t string) []string {
 		if l.Kind == "ref" && l.Typ != nil && len(addressable) > 0 {
 			if pt, ok := l.Typ.Underlying().(*types.Pointer); ok && addressableElem[typeKey(pt.Elem())] {
 				al := ex.get(st, allocKey, SInt)
-				return []string{mkApp("<=", fmt.Sprintf("(- (* (+ %s 1) %d))", al, len(addressable)), t), mkApp("<=", t, al)}
+				return []string{mkApp("<=", "0", t), mkApp("<=", t, al)}
 			}
 		}
 		return []string{mkApp("<=", "0", t), mkApp("<=", t, ex.get(st, allocKey, SInt))}
@@ -1228,14 +1233,5 @@ func (fr *Frame) innermostLoopCtx(b *ssa.BasicBlock) *LoopCtx {
 // allocation counter is alloc - 0 normally; for heap arrays of a type that has
 // virtual (embedded, addressable) objects, the most negative virtual reference.
 func objLowerBound(key, alloc string) string {
-	if len(addressable) == 0 || !strings.HasPrefix(key, "H.") {
-		return "0"
-	}
-	rest := key[2:]
-	for ft := range addressableElem {
-		if strings.HasPrefix(rest, ft+".") {
-			return fmt.Sprintf("(- (* (+ %s 1) %d))", alloc, len(addressable))
-		}
-	}
 	return "0"
 }
